@@ -48,7 +48,7 @@ def run(harness, module, funcname, timeout, functions=(), bounds=None, assumptio
     fn = getattr(module, funcname)
     line = inspect.getsourcelines(fn)[1] + 1
     path = inspect.getsourcefile(module)
-    env = dict(os.environ, PYTHONPATH=ROOT, PYTHONHASHSEED="0")
+    env = dict(os.environ, PYTHONPATH=(os.environ["VERIF_REPO"] + os.pathsep if os.environ.get("VERIF_REPO") else "") + ROOT, PYTHONHASHSEED="0")
     t0 = time.time()
     try:
         p = subprocess.run([CROSSHAIR, "check", "--report_all", "--per_condition_timeout", str(int(timeout)), "%s:%d" % (path, line)],
